@@ -143,8 +143,12 @@ class Run:
             raise Undecided('verus produced no result: ' + (errs[0] if errs else p.stderr[-2000:]))
         return res, diags, ms, ' '.join(cmd[:1] + ['<woven>/uflow.rs'] + cmd[2:])
 
-    def classify(self, diags):
-        """-> (verification failures, other errors)"""
+    def classify(self, diags, res=None):
+        """-> (verification failures, other errors, resource-limit hits). `res`: Verus' JSON summary; when it shows that
+        the verification stage ran (rustc errors abort before it), a message of an unknown class that points into the
+        crate is a failed obligation, not a front-end error."""
+        vr = (res or {}).get('verification-results') or {}
+        verified_stage = bool(vr) and not vr.get('encountered-vir-error') and (vr.get('verified', 0) + vr.get('errors', 0)) > 0
         vf = []; other = []; und = []
         for d in diags:
             if d.get('level') != 'error': continue
@@ -153,6 +157,8 @@ class Run:
             if any(u in msg for u in UNDECIDED_MSGS):
                 und.append(d); continue
             if any(v in msg for v in VERIFICATION_MSGS) and d.get('spans'):
+                vf.append(d)
+            elif verified_stage and d.get('spans') and not d.get('code'):
                 vf.append(d)
             else:
                 other.append(d)
@@ -267,7 +273,7 @@ class Run:
         demote = set(); skip = set()
         for attempt in range(6):
             res, diags, ms, cmdline = self.run_verus(modules, whole=whole)
-            vf, other, und = self.classify(diags)
+            vf, other, und = self.classify(diags, res)
             if not other: break
             # unsupported construct / compile error: demote offending functions outside the cone and retry
             newd = set()
@@ -309,7 +315,7 @@ class Run:
             self.notes.append('resource limit hit; retried with --rlimit 150: ' + und[0].get('message', '')[:120])
             res, diags, ms2, cmdline = self.run_verus(modules, whole=whole, rlimit=150)
             ms += ms2
-            vf, other, und = self.classify(diags)
+            vf, other, und = self.classify(diags, res)
             if other:
                 raise Undecided('verus front-end error on retry: ' + other[0].get('rendered', '')[:800])
             if und:
@@ -404,7 +410,7 @@ class Run:
             # stability cross-check: same crate, different Z3 seed; a disagreement is UNDECIDED, not a violation
             seed2 = (self.seed or 0) + 7
             res2, diags2, ms2, _ = self.run_verus(modules, whole=True, seed=seed2)
-            vf2, other2, und2 = self.classify(diags2)
+            vf2, other2, und2 = self.classify(diags2, res2)
             if other2 or und2:
                 raise Undecided('stability run (seed %d) hit a front-end error or resource limit' % seed2)
             k1 = sorted(set(f['key'] for f in fails))
